@@ -193,15 +193,23 @@ def c03b(ctx, tu):
         if fn.rec.get("special") in ("copy_ctor", "move_ctor"):
             continue
         try:
-            n = len(fn.rec["params"])
-            o = Oracle(params={0: 3, 1: 8})
-            it = Interp(fn, o)
-            it.run()
-            st = stores(it.effects)
-            want = {"trompeloeil::rt_multiplicity::low": 3, "trompeloeil::rt_multiplicity::high": 3 if n == 1 else 8}
-            ctx.ob("C03.b", "rt_multiplicity/%d" % n, st == want, pattern=fn.pat, unit=tu.name,
-                   detail="" if st == want else "RT_TIMES(%s) must give bounds %s; found %s" % (
-                       "n" if n == 1 else "low, high", want, st))
+            ps = fn.rec["params"]
+            n_req = len([p for p in ps if "default" not in p])
+            # every way the constructor can be called: with k written arguments, the rest defaulted
+            for k in range(max(n_req, 1), len(ps) + 1):
+                given = {0: 3, 1: 8}
+                it0 = Interp(fn, Oracle())
+                vals = {}
+                for i, p in enumerate(ps):
+                    vals[i] = given[i] if i < k else it0.ev(p["default"])
+                o = Oracle(params=vals)
+                it = Interp(fn, o)
+                it.run()
+                st = stores(it.effects)
+                want = {"trompeloeil::rt_multiplicity::low": 3, "trompeloeil::rt_multiplicity::high": 3 if k == 1 else 8}
+                ctx.ob("C03.b", "rt_multiplicity/%d" % k, st == want, pattern=fn.pat, unit=tu.name,
+                       detail="" if st == want else "RT_TIMES(%s) must give bounds %s; found %s" % (
+                           "n" if k == 1 else "low, high", want, st))
         except Unknown as u:
             ctx.ob("C03.b", "rt_multiplicity", None, pattern=fn.pat, unit=tu.name, detail="cannot interpret: %s" % u)
     # times::action passes the (L,H) of its multiplicity<L,H> argument
